@@ -174,6 +174,18 @@ def runCollect (k : Kernel) (z : ATree) (ops : List Operand) (s : MState) : Opti
   let r := runK k.declared k.loops k.out z ops
   if assertsOk r.2 then (runOps (callsOf r.2) s).map (fun x => (r.1, x.2)) else none
 
+/-- a whole collecting session around the kernel: `beginCollect(p)`, `trace(rank, type)` for `keys`,
+    the kernel, `endCollect()` — from whatever state `s₀` earlier sessions left behind -/
+def kernelSession (k : Kernel) (z : ATree) (ops : List Operand) (p : String) (keys : List TKey) (s₀ : MState) :
+    Option (ATree × MState) :=
+  let r := runK k.declared k.loops k.out z ops
+  if assertsOk r.2 then
+    (runOps (openOps p keys ++ callsOf r.2 ++ [.endCollect]) s₀).map (fun x => (r.1, x.2))
+  else none
+
+/-- the events of the kernel (calls, ghost marks) -/
+def kernelEvents (k : Kernel) (z : ATree) (ops : List Operand) : List KEv := (runK k.declared k.loops k.out z ops).2
+
 /-! ### what was actually executed (ghost counts) -/
 
 def nMul (evs : List KEv) : Nat := evs.countP (fun e => e == .pop .mul)
